@@ -86,7 +86,7 @@ func c08Run(t *testing.T, c c08Case, ch *seqx.Chooser) (kind, what string, trace
 		synctest.Test(t, func(t *testing.T) {
 			m := msource.New()
 			var tags []c08Tag
-			sent := 0      // bytes of the stream handed to the tool so far (on all connections)
+			sent := 0 // bytes of the stream handed to the tool so far (on all connections)
 			connected := true
 			dials := 0
 			hook.SetDialHook(func(network, addr string) (net.Conn, error, bool) {
